@@ -198,7 +198,7 @@ Definition o_set_ok (o : ost) (b : bool) : ost :=
 
 Definition has_sink (o : ost) : bool := match o_sink o with Some _ => true | None => false end.
 
-Definition o_step (c : cfg) (o : ost) (x : action) (r : ares) (d : obs_dump) : ost :=
+Definition o_step (c : cfg) (p : N) (o : ost) (x : action) (r : ares) (d : obs_dump) : ost :=
   let o1 :=
     match x, r with
     | ASendSync t l, ACode 0 =>
@@ -252,12 +252,18 @@ Definition o_step (c : cfg) (o : ost) (x : action) (r : ares) (d : obs_dump) : o
        (match x, r with ASendSync _ _, ACode 1 => true | _, _ => fc_new =? 0 end) &&
        (* the async send waits exactly when the queue is full *)
        (if d_a d then (d_wait d =? 0) || (d_afree d =? 0) else d_wait d =? 0) &&
+       (* ... and fails only on a closed stream: the error count grows only if A's Connection has ended or
+          handle A still holds the sink of an earlier stream (p = streams set up so far) *)
+       ((d_err d <=? o_done o1 - len (filter (fun n => negb (n_sync n)) (o_acc o1))) || negb (d_a d) ||
+        negb (match o_sink o1 with Some k => k =? p | None => false end)) &&
        (d_sfree d <=? c_s (cfA c)) && (d_afree d <=? c_a (cfA c)) && (d_nfree d <=? c_n (cfB c)) &&
        (d_bad d =? 0)).
 
-Fixpoint o_run (c : cfg) (o : ost) (xs : list action) (tr : list (ares * obs_dump)) : ost :=
+Fixpoint o_run (c : cfg) (p : N) (o : ost) (xs : list action) (tr : list (ares * obs_dump)) : ost :=
   match xs, tr with
-  | x :: xs', (r, d) :: tr' => o_run c (o_step c o x r d) xs' tr'
+  | x :: xs', (r, d) :: tr' =>
+      let p' := match x, r with AReopen, ACode 0 => p + 1 | _, _ => p end in
+      o_run c p' (o_step c p' o x r d) xs' tr'
   | _, _ => o
   end.
 
@@ -382,10 +388,13 @@ Record uview := mkU {
   u_maxper : N;                   (* largest period it was told about *)
   u_cmds : N; u_fcp : N           (* command channel at the last step; ForceClose since Opened/Closed *)
 }.
-Record sost := mkSO { so_a : uview; so_b : uview; so_ok : bool }.
+(* so_per: streams set up so far; so_cpa / so_cpb: stream of the current (or last) Connection of A / B *)
+Record sost := mkSO { so_a : uview; so_b : uview; so_ok : bool; so_per : N; so_cpa : N; so_cpb : N }.
+Definition so_cp (o : sost) (x : bool) : N := if x then so_cpa o else so_cpb o.
 Definition uv (o : sost) (x : bool) : uview := if x then so_a o else so_b o.
 Definition set_uv (o : sost) (x : bool) (u : uview) (ok : bool) : sost :=
-  if x then mkSO u (so_b o) (so_ok o && ok) else mkSO (so_a o) u (so_ok o && ok).
+  if x then mkSO u (so_b o) (so_ok o && ok) (so_per o) (so_cpa o) (so_cpb o)
+  else mkSO (so_a o) u (so_ok o && ok) (so_per o) (so_cpa o) (so_cpb o).
 
 Fixpoint find_p (id : N) (l : list (N * notif)) : option notif :=
   match l with [] => None | (i, n) :: t => if i =? id then Some n else find_p id t end.
@@ -412,9 +421,12 @@ Definition so_step (c : cfg) (o : sost) (t : step) (v : res) (d : sdump_t) : sos
         | Some _, _, 5 => o
         | None, Some k, 0 => set_uv o x (mkU (u_sink u) (u_acc u ++ [mkN x k false tg l]) (u_pend u) (u_del u)
                                              (u_maxper u) (u_cmds u) (u_fcp u)) true
-        | None, Some k, 4 => set_uv o x (mkU (u_sink u) (u_acc u) (u_pend u ++ [(id, mkN x k false tg l)]) (u_del u)
-                                             (u_maxper u) (u_cmds u) (u_fcp u)) true
-        | None, Some _, 2 => o
+        | None, Some k, 4 =>
+            (* it waits only when its queue has no free slot *)
+            set_uv o x (mkU (u_sink u) (u_acc u) (u_pend u ++ [(id, mkN x k false tg l)]) (u_del u)
+                            (u_maxper u) (u_cmds u) (u_fcp u)) (sd_alive d x && (sd_afree d x =? 0))
+        | None, Some k, 2 =>   (* it fails only on a closed stream (or through the sink of an earlier stream) *)
+            set_uv o x u (negb (sd_alive d x) || negb (k =? so_cp o x))
         | None, None, 3 => o
         | _, _, _ => set_uv o x u false
         end
@@ -465,7 +477,16 @@ Definition so_step (c : cfg) (o : sost) (t : step) (v : res) (d : sdump_t) : sos
             (sd_sfree d x <=? c_s (ecf c x)) && (sd_afree d x <=? c_a (ecf c x)) &&
             (sd_nfree d x <=? c_n (ecf c x)) && (sd_cmds d x <=? c_c (ecf c x))) in
   let o2 := upd (upd o1 true) false in
-  mkSO (so_a o2) (so_b o2) (so_ok o2 && (sd_bad d =? 0)).
+  (* the protocol sets up streams the way open_stream does *)
+  let '(per', cpa', cpb') :=
+    match t, v with
+    | SOpen x, RCode 0 =>
+        if so_cp o x <? so_per o
+        then (so_per o, (if x then so_per o else so_cpa o), (if x then so_cpb o else so_per o))
+        else (so_per o + 1, (if x then so_per o + 1 else so_cpa o), (if x then so_cpb o else so_per o + 1))
+    | _, _ => (so_per o, so_cpa o, so_cpb o)
+    end in
+  mkSO (so_a o2) (so_b o2) (so_ok o2 && (sd_bad d =? 0)) per' cpa' cpb'.
 
 Fixpoint so_run (c : cfg) (o : sost) (ts : list step) (tr : list (res * sdump_t)) : sost :=
   match ts, tr with
@@ -485,7 +506,7 @@ Definition prop_ok (case trace : list N) : bool :=
       | 2 :: body =>
           match pall (p_sblocks ts) body with
           | Some tr =>
-              let o := so_run c (mkSO empty_u empty_u true) ts tr in
+              let o := so_run c (mkSO empty_u empty_u true 0 0 0) ts tr in
               so_ok o &&
               fifo_ok c true (count_open ts) (u_acc (so_a o)) (u_del (so_b o)) &&
               fifo_ok c false (count_open ts) (u_acc (so_b o)) (u_del (so_a o))
@@ -498,7 +519,7 @@ Definition prop_ok (case trace : list N) : bool :=
       | Some (c, xs, _), 1 :: body =>
           match pall (p_blocks xs) body with
           | Some tr =>
-              let o := o_run c (mkO None [] [] 0 [] None 0 0 true) xs tr in
+              let o := o_run c 0 (mkO None [] [] 0 [] None 0 0 true) xs tr in
               o_ok o && fifo_ok c true (count_reopen xs) (o_acc o) (o_del o)
           | None => false
           end
